@@ -8,7 +8,7 @@
    expiries at any moment it is armed, and the deferred _transmit task at any moment.
    Lost DATA packets need no input of their own: the chunk simply stays outstanding. *)
 From Coq Require Import ZArith List Bool.
-From AV Require Proof.SctpDupP Model.SctpRecv Proof.SctpLoopP Model.Rto Proof.RtoP.
+From AV Require Proof.SctpDupP Model.SctpRecv Proof.SctpLoopP Model.Rto Proof.RtoP Proof.SctpClosedLoopP.
 From AV Require Import Gen.SctpConst Model.SctpTx Proof.SctpTxP Proof.SctpTxLiveP.
 Import ListNotations.
 Local Open Scope Z_scope.
@@ -109,11 +109,40 @@ Theorem C02_rto_bounded : forall rs s, Forall (fun s' => RP.rto_ok (RT.rto s')) 
 Proof. exact RP.rto_always_bounded. Qed.
 Print Assumptions C02_rto_bounded.
 
+(* 8. THE CLOSED LOOP of sender and receiver once the network has stopped losing and reordering
+   datagrams.  s: ANY reachable sender state (after any history of sends, SACKs with any
+   cumulative TSN and gap blocks, T3 expiries, transmit runs).  r: a receiver in sync with it - it
+   has received everything before the sender's outstanding chunks (cumulative TSN = the sender's
+   floor, nothing out of order).  `loop`: as long as anything is outstanding, all outstanding
+   chunks arrive in order (as ANY wire images carrying their TSNs), the RECEIVER MODEL processes
+   them, its own last SACK goes back, the SENDER MODEL processes it (at any clock value) and
+   transmits what its window allows; when nothing is outstanding but something is queued the
+   pending transmit task runs.  Within 2 * (outstanding + queued) rounds: nothing outstanding,
+   nothing queued, flight size 0; the receiver is again in sync and its cumulative TSN is the
+   last TSN that was outstanding or queued - it has received everything.  (With C01_complete_delivery
+   everything that arrived has been delivered.)  This is "once the network stops losing datagrams,
+   everything sent is delivered and both ends return to quiescence" for one direction of data
+   under in-order delivery; loss and reordering before that point are the arbitrary history. *)
+Module CL := AV.Proof.SctpClosedLoopP.
+Theorem C02_closed_loop : forall base N t rw ins (wire : sc -> R.chunk) now r,
+  SctpDupP.r32 base -> 0 <= N < 2147483648 -> SctpDupP.inw base N (tsn_minus_one t) ->
+  Forall wf_input ins -> wf_ord_run base N (init t rw) ins ->
+  (forall c, R.tsn (wire c) = c_tsn c) ->
+  let s := fst (run (init t rw) ins) in
+  CL.sync base N s r ->
+  let fin := CL.loop wire now (2 * length (sentq s ++ outq s)) s r in
+  sentq (fst fin) = [] /\ outq (fst fin) = [] /\ flight (fst fin) = 0 /\
+  CL.sync base N (fst fin) (snd fin) /\ SctpDupP.off base (R.last_rx (snd fin)) = top base s.
+Proof. exact CL.closed_loop_reachable. Qed.
+Print Assumptions C02_closed_loop.
+
 (* PARTIAL.  Proved: no deadlock state (1-3); from every reachable state, drainage by the
    fault-free continuation with an ideal peer (4); the ideal peer's answer is the receiver
-   model's answer under in-order loss-free delivery (6).  NOT proved: the full closed loop of two
-   endpoints within bounded time -- SACK delay, retransmission timers, reordering in the
-   fault-free suffix, both directions at once; it is observed by the
+   model's answer under in-order loss-free delivery (6); the closed loop of sender model and
+   receiver model for one direction under in-order delivery (8).  NOT proved: delayed SACKs (the
+   model receiver answers every arrival), reordering inside the fault-free suffix, both directions
+   and DCEP / RE-CONFIG traffic at once, partially reliable chunks abandoned during the suffix (a
+   FORWARD-TSN would have to travel too); these are observed by the
    two-endpoint simulator (fault prefix, then fault-free delivery and timer firings until
    quiescence) on every run.  Of real time only the range of the timer delays is a theorem (7);
    when the timers actually fire is the event loop's business. *)
@@ -134,6 +163,12 @@ Proof.
   - repeat constructor; unfold bok; cbn; try reflexivity; discriminate.
   - vm_compute. repeat split.
 Qed.
+
+(* non-vacuity of theorem 8 (Proof/SctpClosedLoopP.v): five chunks sent, the first acknowledged with a
+   gap report, T3 expired: four chunks outstanding, the receiver has the first; the loop ends with
+   empty queues, flight size 0 and the receiver's cumulative TSN at 14 *)
+Example C02_closed_loop_example : CL.closed_loop_example_statement.
+Proof. exact CL.closed_loop_example. Qed.
 
 (* non-vacuity of theorem 7 (Proof/RtoP.v): measurements 0.25 s, 3 s, 1000 s, -5 s give the timeouts
    1, 3.71875, 60, 60: the three cases of the bound *)
